@@ -56,6 +56,7 @@ struct World<B: Backend> {
     same_mask: u8,
     counts: bool,
     adopt: bool,
+    reopen: bool,
     step: usize,
     violation: Option<Violation>,
     counters: Counters,
@@ -536,6 +537,11 @@ impl<B: Backend> World<B> {
                     self.counters.inc("probe.unexpected_upgrade_adopted");
                     self.shared.push(got);
                     self.model.owners += 1;
+                    if self.reopen {
+                        // C01 mode: an owner exists again ("a successfully upgraded weak reference is an
+                        // owner"), so its writes must reach the subscribers like any owner's
+                        self.model.closed = false;
+                    }
                     self.check_counts();
                     return;
                 }
@@ -727,6 +733,7 @@ pub fn run_generic<B: Backend>(case: &Case) -> Outcome {
         same_mask: cfg.same_waker_mask,
         counts: cfg.counts,
         adopt: cfg.adopt_unexpected_upgrade,
+        reopen: cfg.reopen_on_adopt,
         step: 0,
         violation: None,
         counters: Counters::default(),
